@@ -21,7 +21,8 @@ import vlib
 INV = {
     "C07": ["C07_NoAcceptAfterSignal", "C07_NoServiceAfterSignal", "C07_ReturnsOk", "C07_InflightCompletes",
             "C07_ToldAtMostOnce", "C07_OpenToldAndClosed", "C07_DriversEnd"],
-    "C09": ["C09_SrvStable", "C09_EndsOnlyOnAllowed", "C09_ProbeServed", "C09_Isolation", "C09_OthersServed"],
+    "C09": ["C09_Quiescent", "C09_SrvStable", "C09_EndsOnlyOnAllowed", "C09_ProbeServed", "C09_Isolation", "C09_OthersServed",
+            "C09_DriversEnd"],
 }
 MODEL_PROPS = {
     "C07": ["C07_NoAcceptAfterSignal", "C07_OkIffSignal", "C07_InflightCompletes", "C07_ToldAtMostOnce",
@@ -29,7 +30,7 @@ MODEL_PROPS = {
     "C09": ["C09_FaultLocal", "C09_EndsOnlyOnAllowed", "C09_EndCauseConsistent", "C09_OthersServed",
             "C09_AcceptNeverBlocked (live cfg)"],
 }
-FAULTS = {"CancelConnect", "Disconnect", "Trunc", "Garbage", "GateErr"}
+FAULTS = {"CancelConnect", "Disconnect", "Trunc", "Garbage", "GateErr", "Prefix", "ResetConnect"}
 NOTABLE = FAULTS | {"Signal", "ListenerLost", "MakeFail", "MakeOpen", "Probe", "ConnectRaw"}
 
 ASSUMPTIONS = [
@@ -102,6 +103,8 @@ def convert(beh, n, pid, src):
                 out = [{"a": "Send", "c": c, "k": k, "p": "H2"}]
             else:
                 out = [{"a": "Send", "c": c, "k": k, "p": "B1", "ns": True}, {"a": "Send", "c": c, "k": k, "p": "B2"}]
+        elif a == "Prefix":
+            out = [{"a": "Prefix", "c": c, "k": (1, 5, 14, 18, 23)[(n + c) % 5]}]
         elif a in ("Gate", "MakeOpen"):
             out = [{"a": a, "c": c, "k": k, "ok": bool(ok)}]
         else:
@@ -109,7 +112,7 @@ def convert(beh, n, pid, src):
         if ns:
             out[-1]["ns"] = True
         steps += out
-        fault = a in ("CancelConnect", "Disconnect", "Trunc", "Garbage") or (a == "Gate" and not ok) or (a == "Connect" and p == "raw")
+        fault = a in ("CancelConnect", "Disconnect", "Trunc", "Garbage", "Prefix") or (a == "Gate" and not ok) or (a == "Connect" and p == "raw")
         if not ns:
             # probes only at settled points: after every fault (C09), once after the signal (C07)
             if (pid == "C09" and fault) or (a == "Signal"):
@@ -122,7 +125,7 @@ def convert(beh, n, pid, src):
             if s.get(key) == 0:
                 s.pop(key)
     return {"id": f"m-{src}-{n}", "proto": cfg["proto"], "tls": tls, "acc": "duplex", "make_gated": bool(cfg["makeGated"]),
-            "nconn": 2, "nreq": 2, "steps": steps, "src": "model", "exp": exps}
+            "sig_on_make": int(cfg.get("sigOnMake", 0)), "nconn": 2, "nreq": 2, "steps": steps, "src": "model", "exp": exps}
 
 
 def stage_matches(st, q):
@@ -172,6 +175,60 @@ def drift_of(sched, recs):
                 if k < len(rc["reqs"]) and not stage_matches(st, rc["reqs"][k]):
                     mm["req:" + st] += 1
     return n, mm
+
+
+# ------------------------------------------------------------------------------------------------
+def directed(pid, thorough):
+    """Small fixed families for the scenario classes that need a particular shape (the walk and the model
+    simulation produce them too, with lower frequency): a burst of queued connects with the signal fired by the
+    make-service on its k-th call (C07); a TCP client that resets while still in the listen backlog, and a strict
+    prefix of the HTTP/2 preface followed by the client going away, several lengths (C09)."""
+    out = []
+
+    def add(tag, proto, steps, **kw):
+        d = {"id": f"d-{tag}-{len(out)}", "proto": proto, "tls": False, "acc": "duplex", "make_gated": False, "nconn": 3, "nreq": 2,
+             "steps": steps, "src": "directed"}
+        d.update(kw)
+        out.append(d)
+
+    C = lambda i, ns=False, **k: dict({"a": "Connect", "c": i}, **({"ns": True} if ns else {}), **k)
+    req = lambda i, k=1: [{"a": "Send", "c": i, "k": k, "p": p, "ns": True} for p in ("H1", "H2", "B1")] + [{"a": "Send", "c": i, "k": k, "p": "B2"}]
+    if pid == "C07":
+        for proto in ("h1", "auto", "h2"):
+            for k in (1, 2):
+                for gated in (False, True):
+                    # three clients queued before the server runs; the make-service fires the signal on call k
+                    steps = [C(1, True), C(2, True), C(3)]
+                    if gated:
+                        steps += [{"a": "MakeOpen", "ok": True}] * 3
+                    steps += req(1) + [{"a": "Gate", "c": 1, "k": 1, "ok": True}, {"a": "Chunk", "c": 1, "k": 1}, {"a": "Chunk", "c": 1, "k": 1},
+                                       {"a": "Probe"}]
+                    add("burst", proto, steps, sig_on_make=k, make_gated=gated)
+                # the first request is already on the wire when the burst is accepted
+                add("burst", proto, [C(1), C(2, True), C(3)] + req(2), sig_on_make=k + 1)
+    else:
+        for proto in ("h1", "auto", "h2"):
+            for tls in (False, True) if proto != "h2" else (False,):
+                # tcp-reset-in-backlog: alone, in front of a good client, twice in a row
+                add("tcprst", proto, [{"a": "ResetConnect"}, {"a": "Probe"}, C(1), {"a": "ResetConnect", "ns": True}, {"a": "ResetConnect"},
+                                       {"a": "Probe"}] + req(1) + [{"a": "Gate", "c": 1, "k": 1, "ok": True}, {"a": "Chunk", "c": 1, "k": 1},
+                                                                    {"a": "Chunk", "c": 1, "k": 1}, {"a": "Probe"}], acc="tcp", tls=tls)
+                add("tcprst", proto, [C(1, True), {"a": "ResetConnect", "ns": True}, C(2), {"a": "Probe"}], acc="tcp", tls=tls)
+        for tls in (False, True):
+            for n in (1, 5, 14, 18, 23):
+                for close in ("Disconnect", "Trunc"):
+                    for ns in (False, True):
+                        pre = {"a": "Prefix", "c": 2, "k": n}
+                        if ns:
+                            pre["ns"] = True
+                        add("prefix", "auto", [C(1), C(2)] + req(1) + [pre, {"a": close, "c": 2}, {"a": "Probe"},
+                                                                         {"a": "Gate", "c": 1, "k": 1, "ok": True}, {"a": "Chunk", "c": 1, "k": 1},
+                                                                         {"a": "Chunk", "c": 1, "k": 1}, {"a": "Probe"}], tls=tls)
+        if thorough:
+            for n in (2, 9, 16, 22):
+                add("prefix", "auto", [C(1), {"a": "Prefix", "c": 1, "k": n}, {"a": "Trunc", "c": 1}, {"a": "Probe"}], acc="tcp")
+                add("prefix", "auto", [C(1), {"a": "Prefix", "c": 1, "k": n}, {"a": "Disconnect", "c": 1}, {"a": "Probe"}], acc="unix")
+    return out
 
 
 # ------------------------------------------------------------------------------------------------
@@ -364,6 +421,12 @@ def run(pid, tier, seed, t0):
     asb = vlib.tlc("MC_Server", "Server_asbuilt.cfg", pid, workers=4, timeout=300)
     extra_models["Server_asbuilt.cfg"] = {"states": asb.distinct, "violated_as_expected": asb.violated,
                                           "note": "AsBuiltD8=TRUE: TLC finds the cancelled-connect end of the serving future"}
+    hoi = vlib.tlc("MC_Server", "Server_hoisted.cfg", pid, workers=4, timeout=300)
+    extra_models["Server_hoisted.cfg"] = {"states": hoi.distinct, "violated_as_expected": hoi.violated,
+                                          "note": "Hoisted=TRUE (signal polled once per poll of the serving future), signal fired by the "
+                                                  "make-service: TLC finds the accept after the signal"}
+    if hoi.violated != "C07_NoAcceptAfterSignal":
+        raise vlib.ToolError("hoisted-signal demonstration config did not produce the expected model counterexample")
     if asb.violated != "C09_EndsOnlyOnAllowed":
         raise vlib.ToolError("as-built demonstration config did not produce the expected model counterexample")
 
@@ -375,7 +438,7 @@ def run(pid, tier, seed, t0):
         g = vlib.tlc("MC_Server", cfgname, pid, workers=4, simulate=num, depth=400, seed=seed, timeout=600)
         for b in g.printed("REPLAY"):
             s = convert(b, len(scheds), pid, src)
-            sig = json.dumps([s["proto"], s["tls"], s["make_gated"], s["steps"]], sort_keys=True)
+            sig = json.dumps([s["proto"], s["tls"], s["make_gated"], s["sig_on_make"], s["steps"]], sort_keys=True)
             if sig in seen or not s["steps"]:
                 continue
             seen.add(sig)
@@ -395,9 +458,16 @@ def run(pid, tier, seed, t0):
         traces.append((tag, p, json.loads(o.strip().splitlines()[-1])))
 
     harness("model", ["--in", model_in])
+    dir_in = os.path.join(out, "directed_schedules.ndjson")
+    vlib.write_ndjson(dir_in, directed(pid, thorough))
+    harness("directed", ["--in", dir_in])
     nwalk = (3000, 1000) if thorough else (300, 100)
     harness("walk", ["--walk", "--profile", prof, "--seed", seed, "--num", nwalk[0], "--len", 24, "--protos", "h1,auto,h2"])
     harness("walk_tls", ["--walk", "--profile", prof, "--seed", seed + 1, "--num", nwalk[1], "--len", 22, "--tls", 1, "--protos", "h1,auto"])
+    if not thorough:
+        # a few real-socket runs in the quick tier as well (eventual outcomes only, generous real time-outs)
+        harness("walk_tcp", ["--walk", "--profile", prof, "--seed", seed + 2, "--num", 8, "--len", 12, "--acc", "tcp",
+                             "--protos", "h1,auto,h2"], timeout=900)
     if thorough:
         for acc in ("tcp", "unix"):
             harness(f"walk_{acc}", ["--walk", "--profile", prof, "--seed", seed + 2, "--num", 90, "--len", 18, "--acc", acc,
@@ -405,6 +475,7 @@ def run(pid, tier, seed, t0):
             harness(f"walk_{acc}_tls", ["--walk", "--profile", prof, "--seed", seed + 3, "--num", 40, "--len", 16, "--acc", acc,
                                         "--tls", 1, "--protos", "h1,auto"], timeout=2400)
 
+    truncated = [tag for tag, _, info in traces if info.get("truncated")]
     # 4. the monitor decides -------------------------------------------------------------------
     all_path = os.path.join(out, "trace_all.ndjson")
     with open(all_path, "w") as f:
@@ -412,6 +483,8 @@ def run(pid, tier, seed, t0):
             f.write(open(p).read())
     recs = vlib.read_ndjson(all_path)
     mon, viols = run_monitor(pid, all_path, "all")
+    if truncated and not viols:
+        raise vlib.ToolError(f"harness runs {truncated} were cut short after repeated stalls but the monitor saw no violation")
     if not viols and mon.distinct != len(recs):
         # (a schedule is followed up to its first falsifying observation only, so with violations fewer)
         vlib.log(mon.out[-3000:])
